@@ -40,7 +40,7 @@ def _uniq(progs):
     return out
 
 
-def base_programs(tier, with_cont=True):
+def base_programs(tier, with_cont=True, extended=False):
     """Program texts: seeds + statement sequences x guards x init modes, simplest first."""
     progs = list(gen.SEEDS)
     if tier == "quick":
@@ -55,6 +55,15 @@ def base_programs(tier, with_cont=True):
         core = ["c = Bernoulli(1/2)", "c = 1 - c", "x = x + c", "x = 1", "y = x", "x, y = y, x + y", "x, y = 0, x + y",
                 "if c == 1:\n x = x + 1\nend", "if c == 1:\n c = Bernoulli(1/2)\n x = x + 1\nend"]
         seqs += [s for s in gen.sequences(core, 3) if len(s) == 3]
+    if tier == "quick" and extended:
+        # (cheap checks only: C02, C03, C05, C12)  every statement of the extended menus at least alone and paired (both orders) with a few partner statements
+        partners = ["c = Bernoulli(1/2)", "x = x + c", "y = x", "if c == 1:\n x = x + 1\nend"]
+        more = gen.S_CTRL_MORE + gen.S_DATA_MORE + gen.S_IF_MORE + (gen.S_CONT_MORE if with_cont else [])
+        for a in more:
+            seqs.append([a])
+            for b in partners:
+                seqs.append([a, b])
+                seqs.append([b, a])
     for seq in seqs:
         for g in guards:
             if not gen.guard_ok(seq, g):
